@@ -85,6 +85,15 @@ class ListV:
         return 'ListV(%r)' % (self.items,)
 
 
+class IterV(ListV):
+    """One-shot iterator over known elements (what map / filter / zip /
+    enumerate / reversed / iter return): iterating it, or testing membership,
+    uses the elements up."""
+
+    def __repr__(self):
+        return 'IterV(%r)' % (self.items,)
+
+
 class TupleV:
     __slots__ = ('items',)
 
